@@ -90,6 +90,7 @@ func NewClientWithLogger(
 		ctx,
 		cancel,
 		sync.WaitGroup{},
+		sync.Mutex{},
 	}
 }
 
@@ -122,11 +123,15 @@ type client struct {
 	context                          context.Context
 	cancelFunc                       context.CancelFunc
 	wg                               sync.WaitGroup // For the read loop.
+	encoderMutex                     sync.Mutex     // Serialises writers only; never held together with mutex.
 }
 
 func (c *client) sendCBOR(message any) error {
-	c.mutex.Lock()
-	defer c.mutex.Unlock()
+	// A write can block for as long as the plugin does not read. It must not hold the mutex that the read
+	// loop needs to deliver results: while the read loop waits for it the plugin's own writes block too, the
+	// plugin stops reading, and both sides wait for each other until the plugin's send timeout expires.
+	c.encoderMutex.Lock()
+	defer c.encoderMutex.Unlock()
 	return c.encoder.Encode(message)
 }
 
